@@ -1,7 +1,6 @@
 package types
 
 import (
-	"fmt"
 	"reflect"
 
 	"github.com/kaptinlin/gozod/core"
@@ -126,31 +125,9 @@ func (z *ZodTuple[T, R]) MustParse(input any, ctx ...*core.ParseContext) R {
 
 // StrictParse provides compile-time type safety by requiring the exact type T.
 func (z *ZodTuple[T, R]) StrictParse(input T, ctx ...*core.ParseContext) (R, error) {
-	var zero R
-
-	// Convert T to R for ParseComplexStrict.
-	constraintInput, ok := convertToTupleType[T, R](input)
-	if !ok {
-		if len(ctx) == 0 {
-			ctx = []*core.ParseContext{core.NewParseContext()}
-		}
-		return zero, issues.CreateTypeConversionError(
-			fmt.Sprintf("%T", input),
-			"tuple constraint type",
-			any(input),
-			ctx[0],
-		)
-	}
-
-	return engine.ParseComplexStrict[[]any, R](
-		constraintInput,
-		&z.internals.ZodTypeInternals,
-		core.ZodTypeTuple,
-		z.extractTupleForEngine,
-		z.extractTuplePtrForEngine,
-		z.validateTupleForEngine,
-		ctx...,
-	)
+	// StrictParse must answer exactly what Parse answers: the statically typed input is a valid
+	// Parse input, so run the one pipeline.
+	return z.Parse(input, ctx...)
 }
 
 // MustStrictParse provides compile-time type safety and panics on failure.
